@@ -101,7 +101,7 @@ pub fn run_rt<'a>(ctx: &'a Ctx, subs: &'a [RoundTrip], per_unit_quick: u32, per_
 
 pub fn run(ctx: &Ctx) -> EvidenceMeta {
   let subs = all_subs("C01", &Proto::LOCAL);
-  run_rt(ctx, &subs, 500, 20_000, 100_000, 100_000);
+  run_rt(ctx, &subs, 4000, 40_000, 100_000, 1_000_000);
   EvidenceMeta {
     rule: "per (version, layer): a deterministic sweep over message byte lengths {0,1,15,16,17,31,32,33,47,48,49,63,64,65,127,128,129,255,256,257,4095,4096,4097,65535,65536,65537,100000} x {no footer, footer} (assertion alternating for v3/v4), \
            then generated cases (key incl. all-zero/all-one, nonce, message from JSON-ish ASCII / arbitrary Unicode / specials / boundary lengths, footer and assertion in {none, explicit empty, text}). \
